@@ -251,7 +251,7 @@ func supervise(c *mon.Ctx) {
 	var batches []batch
 	size := func(sp *caseSpec) int {
 		switch {
-		case sp.Class == "hunt" || sp.Class == "timeout":
+		case sp.Class == "hunt" || sp.Class == "timeout" || sp.Class == "special":
 			return 1
 		case sp.silentFault():
 			return 2
